@@ -23,6 +23,8 @@ func globals() []globalVar { return nil }
 
 func LibraryGoroutinePanics() int { return 0 }
 
+func libraryGoroutineTicks() uint64 { return 0 }
+
 func setClock(c func() time.Time)          {}
 func setSleep(h func(d time.Duration))     {}
 func setExit(h func(code int, msg string)) {}
